@@ -18,7 +18,7 @@ PHASES = ["first-run", "after-edit", "edit-then-revert"]
 
 
 def scenario(a):
-    cli, drv, target, kind, phase, mode, path, seed = a
+    cli, drv, target, kind, phase, mode, path, seed = a[:8]
     if kind == "ENOTDIR" and target != "<output-dir>":
         return {"skip": "ENOTDIR only applies to the output directory"}
     if target == "<output-dir>" and kind not in ("ENOTDIR", "open-EACCES"):
@@ -26,6 +26,12 @@ def scenario(a):
     if fsmon.STRACE is None and kind in ("open-EACCES", "write-ENOSPC", "open-SIGKILL"):
         return {"skip": "strace unavailable"}
     s = dict(c08.BASE)
+    # thorough tier: start from a randomly edited project instead of the fixed base
+    if len(a) > 8 and a[8]:
+        rnd = random.Random(seed)
+        emap = {e[0]: e[1] for e in c08.EDITS}
+        for nm in rnd.sample([e[0] for e in c08.EDITS if not isinstance(e[1], str) and e[0] not in ("mode", "visualize_deps", "remove-all-commands/restore")], rnd.randint(2, 8)):
+            emap[nm](s)
     s["mode"] = mode
     s["visualize_deps"] = True
     root = common.scratch("c17")
@@ -141,6 +147,12 @@ def run(tier):
                 for mode in ("none", "zod"):
                     for path in paths:
                         jobs.append((cli, drv, target, kind, phase, mode, path, sd + len(jobs)))
+    if tier == "thorough":
+        for rep in range(3):
+            for target in TARGETS:
+                for kind in KINDS:
+                    for phase in PHASES:
+                        jobs.append((cli, drv, target, kind, phase, "zod" if (rep + len(jobs)) % 2 else "none", "cli" if len(jobs) % 3 else "build", sd + len(jobs), True))
     if tier == "quick":
         # a slice of the build-script half so that both entry points are always exercised
         for target in TARGETS:
@@ -150,7 +162,7 @@ def run(tier):
     hit = requested = 0
     exits = {}
     for (job, r) in zip(jobs, res):
-        key = job[2:7]
+        key = job[2:7] + ((job[7],) if len(job) > 8 else ())
         if "skip" in r:
             continue
         requested += 1
